@@ -665,3 +665,90 @@ def continued_literal(ctx):
     else:
         ctx.inconclusive.append("vacuity: nothing read")
     ctx.sample({"paths": E.paths})
+
+
+
+# ---------------------------------------------------------------------------------------
+# O7: the text of a character literal comes out of reader AND parser verbatim, however the statement holding it is laid out
+# ---------------------------------------------------------------------------------------
+V_LITS = ["'(a,i0)'", "\";,&!\"", "'a,b'", "'it''s, really'", "\"say \"\"hi\"\", twice\"", "'x = \"1\", y'", "'! , ;'", "'plain'", "'a &'"]
+V_LAYOUTS = [
+    ("one line", lambda L: ["character(len=*), parameter :: s = " + L]),
+    ("after another statement on the line", lambda L: ["integer :: n = 1; character(len=*), parameter :: s = " + L]),
+    ("continued before the literal", lambda L: ["character(len=*), parameter :: s = &", "   " + L]),
+    ("continued before the literal, leading &", lambda L: ["character(len=*), parameter :: s = &", "   & " + L]),
+    ("with a trailing comment", lambda L: ["character(len=*), parameter :: s = " + L + " ! a comment, with a comma"]),
+    ("second of two entities", lambda L: ["character(len=*), parameter :: t = 'first,one', s = " + L]),
+    ("literal broken in the middle", lambda L: ["character(len=*), parameter :: s = " + L[:3] + "&", "      &" + L[3:]]),
+]
+
+
+def _v_rewrites(lit):
+    import re as _re
+    return _re.sub(r" (?= )|(?<= ) ", "\xa0", lit)
+
+
+def _v_observe(p):
+    vs = [v for v in p.modules[0].variables if str(v.name).lower() == "s"]
+    return vs[0].initial if len(vs) == 1 else "MISSING"
+
+
+def replay_verbatim(w):
+    import ford.sourceform as sf
+    lines = ["module m"] + dict(V_LAYOUTS)[w["layout"]](w["literal"]) + ["end module m"]
+    old = sf.namelist
+    sf.namelist = sf.NameSelector()
+    try:
+        p = _parserh6.project_concrete({"a.f90": lines}, correlate=False, physical=("a.f90",))
+        got = _v_observe(p)
+    except Exception as e:  # noqa
+        return True, {"physical lines": lines, "ford": "raised " + repr(e)[:200]}
+    finally:
+        sf.namelist = old
+    want = _v_rewrites(w["literal"])
+    return got != want, {"physical lines": lines, "initial value reported": got, "source literal (runs of blanks shown as non-breaking blanks)": want}
+
+
+@obligation("C02", "O7.literal-text-verbatim-through-reader-and-parser", engine="SX(CV)", timeout=900)
+def verbatim(ctx):
+    """a declaration whose initial value is a symbolic literal (commas, `;`, `!`, `&`, both quote kinds, doubled quotes) in a symbolic
+    layout (one line, after a `;`, continued, broken inside the literal, with a comment, after another literal): the value FORD reports is
+    the source literal verbatim"""
+    import ford.sourceform as sf
+    import ford.reader as rd
+
+    ctx.encode_fn(rd.FortranReader.__next__)
+    ctx.encode_fn(sf.line_to_variables)
+    ctx.encode_re("QUOTES_RE", sf.QUOTES_RE)
+    ctx.bounds.update({"literals": V_LITS, "layouts": [l[0] for l in V_LAYOUTS]})
+
+    def h(E):
+        lit = _CV6.choice(E, "literal", V_LITS)
+        lay = _CV6.choice(E, "layout", [l[0] for l in V_LAYOUTS]).concretize()   # the number of physical lines depends on the layout
+        # a literal shorter than the break point or ending in & cannot be broken in the middle / `'a &'` would read as a continuation
+        E.assume(_choice6.apply(lambda l: not (lay == "literal broken in the middle" and (len(l) < 6 or "&" in l)), lit))
+        E.e.snapshot = lambda m: {"literal": _choice6.value_in_model(m, lit), "layout": lay}
+        n = len(dict(V_LAYOUTS)[lay]("'xxxxxxxx'"))
+        body = [_choice6.apply(lambda l, i=i: dict(V_LAYOUTS)[lay](l)[i], lit) for i in range(n)]
+        try:
+            got = _parserh6.project({"a.f90": ["module m"] + body + ["end module m"]}, correlate=False, physical=("a.f90",), post=_v_observe)
+        except (ValueError, IndexError, KeyError, AttributeError, TypeError) as e:
+            E.reachable("raised")
+            E.require(False, "FORD fails on a valid declaration: " + type(e).__name__)
+            return
+        E.reachable("parsed")
+        E.require(_choice6.apply(lambda g, l: g == _v_rewrites(l), got, lit), "literal text is not preserved verbatim")
+
+    E = sym.Engine(ctx, max_paths=20000, incremental=True)
+    found = E.explore(h)
+    seen = set()
+    for (label, m, pc), snap in zip(found, E.snapshots):
+        if label in seen or not snap:
+            continue
+        seen.add(label)
+        ctx.report(label, snap, replay_verbatim)
+    if E.reached.get("parsed"):
+        ctx.twins += 1
+    else:
+        ctx.inconclusive.append("vacuity: parser never completed")
+    ctx.sample({"paths": E.paths})
